@@ -255,6 +255,13 @@ func c02pubAlphabet(thorough bool) []string {
 			}
 		}
 	}
+	// names of two characters that are not two octets (must be registered, not sent as short names) and a
+	// two-octet name of one character (a short name)
+	for _, topic := range []string{"a\u00e9", "\u00e9\u00e8", "\u00e9"} {
+		for qos := byte(0); qos <= 1; qos++ {
+			a = append(a, gw.EvB(fmt.Sprintf("broker PUBLISH{%q q%d}", topic, qos), refmqtt.EncPublish(topic, qos, false, false, 5, []byte("p"))))
+		}
+	}
 	return a
 }
 
@@ -319,7 +326,7 @@ func TestC02(t *testing.T) {
 	}
 	rep := explore.NewReport("C02", "model_checking")
 	gw.BFSCheck(rep, specs, gw.BFSOpts{Test: "TestC02"}, 200, 1200)
-	rep.Coverage["rule"] = "for every predefined-topic configuration {c1,*} x id{1,2} -> {absent,p/1,p/2} (quick: the 9 over id 1; configurations where one table maps two ids to one name are skipped, see assumptions): BFS over up to 3 client registrations/subscriptions, then every broker PUBLISH of topic{xy,p/1,p/2,r/1,r/2,w/1,w/2} x QoS{0,1,2} x retain x payload{empty,p} (thorough: x DUP), then every client answer to a gateway REGISTER (accepted / rejected / silence with retry timers); monitor = the client's own resolver (short decoding, predefined reference, ids it accepted)"
+	rep.Coverage["rule"] = "for every predefined-topic configuration {c1,*} x id{1,2} -> {absent,p/1,p/2} (quick: the 9 over id 1; configurations where one table maps two ids to one name are skipped, see assumptions): BFS over up to 3 client registrations/subscriptions, then every broker PUBLISH of topic{xy,p/1,p/2,r/1,r/2,w/1,w/2} x QoS{0,1,2} x retain x payload{empty,p} (thorough: x DUP) and of the non-ASCII names {2 characters in 3 octets, 2 characters in 4 octets, 1 character in 2 octets} x QoS{0,1}, then every client answer to a gateway REGISTER (accepted / rejected / silence with retry timers); monitor = the client's own resolver (short decoding, predefined reference, ids it accepted)"
 	rep.Assumptions = []string{"default schedule", "Go map iteration order is not controllable: configurations with two ids for one name in the same table are not explored here"}
 	rep.Finish()
 }
